@@ -210,6 +210,15 @@ pub fn h_win_fpo<S: Src>(s: &mut S) {
     vcover!("FPO reached end");
 }
 
+/// C03 view of the same function: totality only (no panic for any input), no semantic claim.
+pub fn h_win_fpo_total<S: Src>(s: &mut S) {
+    let allocates_bp = s.bool();
+    let i = info(s, WinStackThing::AllocatesBasePointer(allocates_bp));
+    let mut w = MockWalker::new(s);
+    let _ = breakpad_symbols::walker::walk_with_stack_win_fpo(&i, &mut w);
+    vcover!("FPO totality reached end");
+}
+
 pub fn h_win_clear<S: Src>(s: &mut S) {
     let mut w = MockWalker::new(s);
     bp::clear_stack_win_caller_registers(&mut w);
@@ -225,9 +234,11 @@ pub fn h_win_clear<S: Src>(s: &mut S) {
 harness!(reg, k_win_frame_size, h_win_frame_size, unwind = 8);
 harness!(reg, k_win_fpo, h_win_fpo, unwind = 8);
 harness!(reg, k_win_clear, h_win_clear, unwind = 8);
+harness!(reg, k_win_fpo_total, h_win_fpo_total, unwind = 8);
 
 pub fn register(v: &mut Vec<(&'static str, fn(&mut TapeSrc))>) {
     v.push(("k_win_frame_size", h_win_frame_size::<TapeSrc>));
     v.push(("k_win_fpo", h_win_fpo::<TapeSrc>));
     v.push(("k_win_clear", h_win_clear::<TapeSrc>));
+    v.push(("k_win_fpo_total", h_win_fpo_total::<TapeSrc>));
 }
